@@ -175,7 +175,7 @@ func vfChain(m *MIME) string {
 				mt = mt[:i]
 			}
 		}
-		parts = append(parts, vfHex([]byte(mt))+"|"+vfHex([]byte(x.extension)))
+		parts = append(parts, vfHex([]byte(mt))+"|"+vfHex([]byte(x.Extension())))
 	}
 	return strings.Join(parts, ",")
 }
